@@ -422,6 +422,15 @@ def rule_empty(prog: Program) -> List[Instance]:
             n_inst += 1
             st = enclosing_stmt(n)
             cs = conds_at(cond, st)
+            # the callee may take care of empty queries itself (GeoboxTiles.tiles returns nothing for one)
+            callee_safe = False
+            if call_name(n) == "tiles":
+                tq = prog.maybe_func("geobox:GeoboxTiles.tiles")
+                if tq is not None:
+                    callee_safe = any(isinstance(x, ast.If) and any(isinstance(a, ast.Attribute) and a.attr == "is_empty" for a in ast.walk(x.test)) and any(isinstance(y, ast.Return) for y in x.body) for x in walk_own(tq.node))
+            if callee_safe:
+                out.append(Instance("R-EMPTY", f"{fi.qual}#{use}->{call_name(n)}", OK, f"`{use}` may be empty, and `{call_name(n)}()` itself returns nothing for an empty query", fi.where(n)))
+                continue
             ok = any(
                 ((not p) and isinstance(e, ast.Attribute) and e.attr == "is_empty" and short(e.value) == use)
                 or (p and isinstance(e, ast.Name) and e.id == use)
